@@ -214,7 +214,8 @@ func renderGff(ref string, feats []vfeat) []byte {
 			if f.named {
 				attrs += ";Name=" + f.name
 			}
-			attrs += ";Note=synthetic,feature"
+			// application attributes (lower-case tags are free for applications, GFF3 reserves the capitalised ones only)
+			attrs += ";Note=synthetic,feature;name=an application tag;id=row" + itoa(i)
 			ph := itoa(phases[i])
 			fmt.Fprintf(&b, "ref\t.\t%s\t%d\t%d\t.\t%s\t%s\t%s\n", typ, f.segs[i][0], f.segs[i][1], strand, ph, attrs)
 		}
@@ -395,6 +396,13 @@ func runVarFam(vec map[string]interface{}) map[string]interface{} {
 	gb := renderGb(ref, feats)
 	gff := renderGff(ref, feats)
 	msa := renderFasta(append([]rec{{"ref", R}}, qs...), 0, false)
+	if gBool(vec, "refdup") && len(qs) > 1 {
+		// the reference record a second time, in the middle of the alignment (two alignments to one reference, concatenated)
+		all := append([]rec{{"ref", R}}, qs[:len(qs)/2]...)
+		all = append(all, rec{"ref", R})
+		all = append(all, qs[len(qs)/2:]...)
+		msa = renderFasta(all, 0, false)
+	}
 	refFa := renderFasta([]rec{{"ref", ref}}, 0, false)
 	var srecs []samRec
 	for _, q := range qs {
